@@ -234,6 +234,14 @@ func Main(t *testing.T, h Harness) {
 		for k, v := range o.Faults {
 			sum.Faults[k] += v
 		}
+		// faults the scheduler itself injects: the whole system stalls for a drawn stretch of virtual time (a slow or
+		// stopped process), or one task is held back at a drawn program point for up to thousands of decisions
+		if o.Sched.Stalls > 0 {
+			sum.Faults["scheduler-stall"] += o.Sched.Stalls
+		}
+		if o.Sched.Paused != "" {
+			sum.Faults["task-suspended-at-program-point"]++
+		}
 		for k, v := range o.Probes {
 			sum.Probes[k] += v
 		}
